@@ -102,6 +102,45 @@ INSERTED_RE = re.compile(r"\[ref: 21\] Num\. inserted reference\(s\): (\d+)")
 NEXT_RE = re.compile(r"\[ref: 20\] Next reference ID: (\d+)")
 
 
+# Breadlog's own log statements are identified by THEIR reference IDs (stable by design); the wording around
+# the numbers is matched exactly first, and -- should a message have been reworded -- generically: a located
+# message ends with a path and two integers (line, column), the count of a count message is its first integer.
+LOC_STRICT = {5: MISSING_RE, 35: UNUSABLE_RE}
+COUNT_STRICT = {7: TOTAL_RE, 21: INSERTED_RE, 20: NEXT_RE}
+LOC_GENERIC = re.compile(r"(\S*[/\\]\S+?|\S+\.\w+?)[,;:]?\s\D*?(\d+)\D+(\d+)\D*$")
+
+
+def _tagged(out, ref_id):
+    tag = "[ref: %d]" % ref_id
+    return [l.split(tag, 1)[1] for l in out.splitlines() if tag in l]
+
+
+def parse_located(out, ref_id):
+    """[(path, line, column)] of the messages carrying Breadlog's own reference ref_id."""
+    res = [(m.group(1), int(m.group(2)), int(m.group(3))) for m in LOC_STRICT[ref_id].finditer(out)]
+    rests = _tagged(out, ref_id)
+    if len(res) == len(rests):
+        return res
+    res = []
+    for r in rests:
+        m = LOC_GENERIC.search(r)
+        if m:
+            res.append((m.group(1), int(m.group(2)), int(m.group(3))))
+    return res
+
+
+def parse_count(out, ref_id):
+    m = COUNT_STRICT[ref_id].search(out)
+    if m:
+        return int(m.group(1))
+    for r in _tagged(out, ref_id):
+        ints = re.findall(r"\d+", r)
+        if ints:
+            return int(ints[0])
+    return None
+
+
+
 def snapshot(root):
     out = {}
     for dp, dns, fns in os.walk(root):
@@ -197,17 +236,12 @@ def run_impl(s, plan=None, release=False, timeout=120, keep=False, setup_hook=No
         o.tmp_left = sorted(x for x in os.listdir(tmp) if x not in decoys)
         lp = os.path.join(proj, "Breadlog.lock")
         o.lock = open(lp, "rb").read() if os.path.exists(lp) else None
-        o.missing = [(os.path.relpath(m.group(1), os.path.join(proj, "src")), int(m.group(2)), int(m.group(3)))
-                     for m in MISSING_RE.finditer(o.out)]
-        o.unusable = [(os.path.relpath(m.group(1), os.path.join(proj, "src")), int(m.group(2)), int(m.group(3)))
-                      for m in UNUSABLE_RE.finditer(o.out)]
-        m = TOTAL_RE.search(o.out)
-        o.total = int(m.group(1)) if m else None
-        m = INSERTED_RE.search(o.out)
-        o.inserted = int(m.group(1)) if m else None
-        m = NEXT_RE.search(o.out)
-        o.next_id = int(m.group(1)) if m else None
-        o.used_cache = "[ref: 17] Using cached next reference ID" in o.out
+        o.missing = [(os.path.relpath(f, os.path.join(proj, "src")), l, c) for f, l, c in parse_located(o.out, 5)]
+        o.unusable = [(os.path.relpath(f, os.path.join(proj, "src")), l, c) for f, l, c in parse_located(o.out, 35)]
+        o.total = parse_count(o.out, 7)
+        o.inserted = parse_count(o.out, 21)
+        o.next_id = parse_count(o.out, 20)
+        o.used_cache = "[ref: 17]" in o.out
         o.panicked = "panicked at" in o.out
         return o
     finally:
